@@ -21,6 +21,9 @@ import (
 	"context"
 	"encoding/json"
 	"errors"
+	"runtime"
+	"sync"
+	"sync/atomic"
 	"flag"
 	"fmt"
 	"os"
@@ -823,6 +826,212 @@ func emitF(out *vc.Out, f *fcase) {
 	out.Case(f.String(), obs, f.String())
 }
 
+// ---------------------------------------------------------------- DomainRegistry cases
+//
+//	c19q bases k … ops n <op>…                       sequential history (r:<ext> Register, x:<dom> Unregister, l:<host> LookupByHost)
+//	c19r bases k … cl n <ext>… hold h round j        n simultaneous Register calls, released by a barrier
+//	                                                  (hold=1: the barrier is the registry's own write lock)
+//	obs c19q: one result per op;  obs c19r: "<tid>=<res>" in order of return, then "L=<LookupByHost of claimant 0's name>"
+
+func regRes(err error) string {
+	if err == nil {
+		return "ok"
+	}
+	return codeOf(err)
+}
+
+func lookRes(pm *models.PortMapping, ok bool) string {
+	if !ok {
+		return "nf"
+	}
+	return fmt.Sprintf("f:%s:%d", hx(pm.ID), pm.TargetClientID)
+}
+
+type rop struct {
+	kind byte // 'r', 'x', 'l'
+	e    ext
+	s    string
+}
+
+func (o rop) String() string {
+	switch o.kind {
+	case 'r':
+		return "r:" + o.e.String()
+	case 'x':
+		return "x:" + hx(o.s)
+	}
+	return "l:" + hx(o.s)
+}
+
+func basesStr(b []string) string {
+	var sb strings.Builder
+	fmt.Fprintf(&sb, "bases %d", len(b))
+	for _, x := range b {
+		sb.WriteString(" " + hx(x))
+	}
+	return sb.String()
+}
+
+func parseBases(r *tokReader) []string {
+	var out []string
+	r.expect("bases")
+	for n := r.num(); n > 0 && r.err == nil; n-- {
+		out = append(out, r.hex())
+	}
+	return out
+}
+
+func runRegSeq(toks []string) (string, string, error) {
+	r := &tokReader{toks: toks}
+	r.expect("c19q")
+	bases := parseBases(r)
+	r.expect("ops")
+	var ops []rop
+	for n := r.num(); n > 0 && r.err == nil; n-- {
+		tok := r.next()
+		switch {
+		case strings.HasPrefix(tok, "r:"):
+			e, err := parseExt(tok[2:])
+			if err != nil {
+				return "", "", err
+			}
+			ops = append(ops, rop{kind: 'r', e: e})
+		case strings.HasPrefix(tok, "x:"), strings.HasPrefix(tok, "l:"):
+			v, err := uhx(tok[2:])
+			if err != nil {
+				return "", "", err
+			}
+			ops = append(ops, rop{kind: tok[0], s: v})
+		default:
+			return "", "", fmt.Errorf("bad registry op %q", tok)
+		}
+	}
+	if r.err != nil || r.i != len(toks) {
+		return "", "", fmt.Errorf("bad c19q case")
+	}
+	return strings.Join(toks, " "), execRegSeq(bases, ops), nil
+}
+
+func execRegSeq(bases []string, ops []rop) (obs string) {
+	defer func() {
+		if r := recover(); r != nil {
+			obs = "panic:" + strings.ReplaceAll(fmt.Sprint(r), " ", "_")
+		}
+	}()
+	reg := httpservice.NewDomainRegistry(bases)
+	var out []string
+	for _, o := range ops {
+		switch o.kind {
+		case 'r':
+			out = append(out, regRes(reg.Register(o.e.portMapping())))
+		case 'x':
+			reg.Unregister(o.s)
+			out = append(out, "ok")
+		default:
+			out = append(out, lookRes(reg.LookupByHost(o.s)))
+		}
+	}
+	return strings.Join(out, " ")
+}
+
+func regSeqCase(bases []string, ops []rop) string {
+	var sb strings.Builder
+	sb.WriteString("c19q " + basesStr(bases))
+	fmt.Fprintf(&sb, " ops %d", len(ops))
+	for _, o := range ops {
+		sb.WriteString(" " + o.String())
+	}
+	return sb.String()
+}
+
+func raceCase(bases []string, cls []ext, hold bool, round int) string {
+	var sb strings.Builder
+	sb.WriteString("c19r " + basesStr(bases))
+	fmt.Fprintf(&sb, " cl %d", len(cls))
+	for _, e := range cls {
+		sb.WriteString(" " + e.String())
+	}
+	h := 0
+	if hold {
+		h = 1
+	}
+	fmt.Fprintf(&sb, " hold %d round %d", h, round)
+	return sb.String()
+}
+
+func parseRace(toks []string) ([]string, []ext, bool, error) {
+	r := &tokReader{toks: toks}
+	r.expect("c19r")
+	bases := parseBases(r)
+	r.expect("cl")
+	var cls []ext
+	for n := r.num(); n > 0 && r.err == nil; n-- {
+		e, err := parseExt(r.next())
+		if err != nil {
+			return nil, nil, false, err
+		}
+		cls = append(cls, e)
+	}
+	r.expect("hold")
+	hold := r.num() == 1
+	r.expect("round")
+	r.num()
+	if r.err != nil || r.i != len(toks) {
+		return nil, nil, false, fmt.Errorf("bad c19r case")
+	}
+	return bases, cls, hold, nil
+}
+
+// execRace: all claimants call the real Register at the same moment on a fresh registry.
+func execRace(bases []string, cls []ext, hold bool) (obs string) {
+	reg := httpservice.NewDomainRegistry(bases)
+	n := len(cls)
+	var ticket int64
+	order := make([]string, n)
+	start := make(chan struct{})
+	var ready, done sync.WaitGroup
+	if hold {
+		reg.VerifHoldWrite()
+	}
+	for i := 0; i < n; i++ {
+		ready.Add(1)
+		done.Add(1)
+		go func(i int, pm *models.PortMapping) {
+			defer done.Done()
+			res := "panic"
+			defer func() {
+				if r := recover(); r != nil {
+					res = "panic:" + strings.ReplaceAll(fmt.Sprint(r), " ", "_")
+				}
+				k := atomic.AddInt64(&ticket, 1)
+				order[k-1] = fmt.Sprintf("%d=%s", i, res)
+			}()
+			ready.Done()
+			<-start
+			res = regRes(reg.Register(pm))
+		}(i, cls[i].portMapping())
+	}
+	ready.Wait()
+	close(start)
+	if hold {
+		// let every claimant reach its first lock acquisition inside Register, then release them together
+		for k := 0; k < 50; k++ {
+			runtime.Gosched()
+		}
+		time.Sleep(200 * time.Microsecond)
+		reg.VerifReleaseWrite()
+	}
+	fin := make(chan struct{})
+	go func() { done.Wait(); close(fin) }()
+	select {
+	case <-fin:
+	case <-time.After(slotTimeout):
+		return "timeout"
+	}
+	d := cls[0].sub + "." + cls[0].base
+	return strings.Join(order, " ") + " L=" + lookRes(reg.LookupByHost(d))
+}
+
 // ---------------------------------------------------------------- main
 
 func emit(out *vc.Out, key string, c *tcase, kind string) {
@@ -874,6 +1083,31 @@ func replayFile(out *vc.Out, path string) {
 		if strings.HasPrefix(line, "K:") {
 			sp := strings.IndexByte(line, ' ')
 			key, line = line[2:sp], line[sp+1:]
+		}
+		if strings.HasPrefix(line, "c19q ") {
+			cs, obs, err := runRegSeq(strings.Fields(line))
+			if err != nil {
+				fmt.Fprintln(os.Stderr, "bad corpus line:", err)
+				os.Exit(3)
+			}
+			out.Count("kind:registry-seq")
+			out.Case(cs, obs, cs)
+			continue
+		}
+		if strings.HasPrefix(line, "c19r ") {
+			bases, cls, hold, err := parseRace(strings.Fields(line))
+			if err != nil {
+				fmt.Fprintln(os.Stderr, "bad corpus line:", err)
+				os.Exit(3)
+			}
+			// a recorded race is replayed many times: the interleaving is up to the Go scheduler
+			cs := strings.Join(strings.Fields(line), " ")
+			for k := 0; k < 400; k++ {
+				obs := execRace(bases, cls, hold)
+				out.Count("kind:registry-race")
+				out.Case(cs, obs, "")
+			}
+			continue
 		}
 		if strings.HasPrefix(line, "c19f ") {
 			f, err := parseFCase(strings.Fields(line))
